@@ -2,6 +2,7 @@ import RsyncModel.Gen.FlistConds
 import RsyncModel.PureTie
 import RsyncModel.FlistThm
 import RsyncModel.RoundTrip
+import RsyncModel.FlistTie
 /-! # C15 — the wire format conforms to rsync protocol 27
 
 Flag values, mode bits, `PATH_MAX` and the protocol version are regenerated from the source. The
@@ -82,6 +83,91 @@ theorem source_long_threshold (v : Int64) :
     Gen.Pure.int64ShortBuf v.toInt false = Gen.Pure.int64Short v.toInt false :=
   ⟨PureTie.int64Short_tied v, PureTie.int64ShortBuf_tied v.toInt⟩
 
+
+/-- **The source's 64-bit reader is the model's `decLong`** (`Conn.ReadInt64`, translated on every run): an int32
+unless that is −1, then eight more bytes -/
+theorem source_long_reader (inp : Str) :
+    Gen.Pure.ReadInt64 inp = match decLong inp with
+      | none => .err
+      | some (v, rest) => .ok (v.toInt, rest) := FlistTie.readInt64_tied inp
+
+/-- **The source's entry decoder is the model's decoder** (`receiveFileEntry`, translated from /repo on every
+run; the connection's input is a byte list that is consumed): for every flag byte, previous entry, option set and
+input it yields the entry and unread rest `Flist.decodeEntry` yields, and an error exactly where that has one.
+Every theorem above about `decodeEntry` is therefore a theorem about the source's function. -/
+theorem source_entry_decoder (o : Opts) (flags : UInt8) (last : Entry) (inp : Str) :
+    Gen.Pure.receiveFileEntry flags.toUInt16 inp last.name last.mtime last.mode last.uid last.gid last.rdev
+        o.uid o.gid o.links o.devices o.specials o.checksum [] 0 0 0 0 0 0 [] [] =
+      FlistTie.toRes ((decodeEntry o flags last inp).map fun p =>
+        (p.1.name, p.1.size.toInt, p.1.mtime, p.1.mode, p.1.uid, p.1.gid, p.1.rdev, p.1.target, p.1.sum, p.2)) :=
+  FlistTie.receiveFileEntry_tied o flags last inp
+
+/-- hence: **the source's decoder reads every legal protocol-27 encoding of an entry back into the entry sent** -/
+theorem source_decodes_reference_encoding (o : Opts) (c : Choice) (last e : Entry) (rest : Str)
+    (ok : ChoiceOk o c last e) (hclean : PathClean.clean e.name = e.name)
+    (htl : e.target.length < pathMax) (hsum : o.checksum = true → e.sum.length = 16) :
+    Gen.Pure.receiveFileEntry (flagsOf c).toUInt16 ((refEncode o c e).tail ++ rest) last.name last.mtime last.mode
+        last.uid last.gid last.rdev o.uid o.gid o.links o.devices o.specials o.checksum [] 0 0 0 0 0 0 [] [] =
+      .ok ((project o e).name, (project o e).size.toInt, (project o e).mtime, (project o e).mode, (project o e).uid,
+           (project o e).gid, (project o e).rdev, (project o e).target, (project o e).sum, rest) := by
+  rw [source_entry_decoder, gokr_decodes_reference_encoding o c last e rest ok hclean htl hsum]
+  rfl
+
+/-- **The source's list loop is the model's `decodeList`** (`ReceiveFileList`'s `for`, translated): the entries in
+wire order, the unread rest, an error where the model has one; it ends within `len(input)+1` iterations. -/
+theorem source_list_decoder (o : Opts) (inp : Str) :
+    Gen.Pure.recvListLoop inp [] [] 0 0 0 0 0 o.uid o.gid o.links o.devices o.specials o.checksum =
+      FlistTie.toRes ((decodeList o zeroEntry (inp.length + 1) inp).map fun p => (p.1.map FlistTie.recOf, p.2)) :=
+  FlistTie.recvListLoop_tied o inp
+
+/-- and whole reference-encoded lists come back entry for entry (the model's loop is the source's, by the theorem above) -/
+theorem source_decodes_reference_list (o : Opts) (ces : List (Choice × Entry)) (rest : Str)
+    (h : Chain o zeroEntry ces) :
+    ∃ fuel, FlistTie.toRes ((decodeList o zeroEntry fuel (encodeList o ces ++ rest)).map fun p => (p.1.map FlistTie.recOf, p.2)) =
+      .ok ((ces.map (fun ce => project o ce.2)).map FlistTie.recOf, rest) :=
+  ⟨ces.length + 1, by rw [gokr_decodes_reference_list o ces rest h]; rfl⟩
+
+/-- **What the source writes for an entry is `gokrEncode`** (sender/flist.go `walkFn` from `s.fec.Reset()` to the
+checksum, translated on every run with the buffer as a byte list; what the file system reports about the object —
+kind, size, times, permission bits, ids, link target, file checksum — are parameters): for every kind of object,
+option set and field values whose permission bits carry no type bits -/
+theorem source_entry_encoder (o : Opts) (k : FlistTie.Kind) (name : Str) (size : Int64) (mtime perm uid gid rdev : Int32)
+    (target fileSum fec0 : Str) (hp : perm &&& 61440 = 0) :
+    Gen.Pure.sendEntry (Gen.Pure.sendEntryFlags (name == [46])) name size.toInt mtime perm (k == .dir) (k == .regular) (k == .symlink)
+        (k == .charDev) (k == .charDev || k == .blockDev) (k == .pipe) (k == .socket) uid gid rdev target fileSum
+        o.uid o.gid o.links o.devices o.specials o.checksum fec0 =
+      .ok (gokrEncode o (FlistTie.entryOfStat k name size mtime perm uid gid rdev target fileSum)) :=
+  FlistTie.sendEntry_is_gokrEncode o k name size mtime perm uid gid rdev target fileSum fec0 hp
+
+theorem gokrEncode_head (o : Opts) (e : Entry) : gokrEncode o e = flagsOf (gokrChoice e) :: (gokrEncode o e).tail := by
+  unfold gokrEncode gokrChoice flagsOf
+  by_cases h : e.name = [46] <;> simp [h] <;> decide
+
+/-- **Source to source**: what the translated sender code writes for an entry, the translated receiver code reads
+back as that entry (the fields the option set transmits), whatever the previous entry was and whatever follows on
+the wire — for clean names and link targets shorter than `PATH_MAX` -/
+theorem source_entry_roundtrip (o : Opts) (k : FlistTie.Kind) (name : Str) (size : Int64) (mtime perm uid gid rdev : Int32)
+    (target fileSum fec0 rest : Str) (last : Entry) (hp : perm &&& 61440 = 0)
+    (hlen : name.length < pathMax) (hclean : PathClean.clean name = name) (htl : target.length < pathMax)
+    (hsum : o.checksum = true → k = .regular → fileSum.length = 16) :
+    ∃ flag body, Gen.Pure.sendEntry (Gen.Pure.sendEntryFlags (name == [46])) name size.toInt mtime perm (k == .dir) (k == .regular)
+        (k == .symlink) (k == .charDev) (k == .charDev || k == .blockDev) (k == .pipe) (k == .socket) uid gid rdev target fileSum
+        o.uid o.gid o.links o.devices o.specials o.checksum fec0 = .ok (flag :: body) ∧
+      Gen.Pure.receiveFileEntry flag.toUInt16 (body ++ rest) last.name last.mtime last.mode last.uid last.gid last.rdev
+        o.uid o.gid o.links o.devices o.specials o.checksum [] 0 0 0 0 0 0 [] [] =
+      (let e := project o (FlistTie.entryOfStat k name size mtime perm uid gid rdev target fileSum)
+       .ok (e.name, e.size.toInt, e.mtime, e.mode, e.uid, e.gid, e.rdev, e.target, e.sum, rest)) := by
+  refine ⟨flagsOf (gokrChoice (FlistTie.entryOfStat k name size mtime perm uid gid rdev target fileSum)),
+    (gokrEncode o (FlistTie.entryOfStat k name size mtime perm uid gid rdev target fileSum)).tail, ?_, ?_⟩
+  · rw [source_entry_encoder o k name size mtime perm uid gid rdev target fileSum fec0 hp]
+    exact congrArg _ (gokrEncode_head o _)
+  · rw [source_entry_decoder, gokr_decodes_gokr o last _ rest hlen hclean htl]
+    · rfl
+    · intro hc
+      unfold FlistTie.entryOfStat
+      by_cases hk : k = .regular
+      · simp [hk, hsum hc hk]
+      · simp [hk]
 
 /-- **Regenerated fact**: both sides order the list with the *same* sort function and the same
 comparison (`sort.Slice`, `<` on the name). `same_numbering` needs distinct names because that sort is
